@@ -2722,6 +2722,15 @@ class SDate:
     def date(self):
         return self
 
+    def replace(self, year=None, month=None, day=None):
+        y = zint(year) if year is not None else self.y
+        m = zint(month) if month is not None else self.m
+        d = zint(day) if day is not None else self.d
+        ok = z3.And(y >= 1, y <= 9999, m >= 1, m <= 12, d >= 1, d <= _dim(y, m))
+        if fork(ok):
+            return SDate(y, m, d)
+        raise ValueError('day is out of range for month')
+
     def strftime(self, fmt):
         out = []
         i = 0
